@@ -12,7 +12,7 @@ PROP = {
     "outside": "serde/sval capture modes and 'any serializer sees what the original value would have produced' (third-party serializer stacks: value-bag bridging, "
                "sval_serde, serde_json, sval_json - not encodable within reach); error capture with source chains, owned/shared values and buffering in the "
                "thread-local context (need std: Value drop glue does not fit, DESIGN.md section 3); number formatting inside display mode",
-    "stubs": [],
+    "stubs": ["<f64/i64/u64/i128/u128 as Display/Debug>::fmt -> assert-unreachable in the display/debug-mode harness (thorough tier; the value formatted there is a custom type; even so the harness did not finish in 15 min here: formatting a Value through value-bag's visitor is at the edge of what CBMC handles)"],
     "assumptions": [],
     "level_text": "Bounded model checking over the full value range of each primitive; PARTIAL: structure-preserving serializer paths are outside.",
     "timeout": {"quick": 700, "thorough": 3600},
